@@ -50,7 +50,9 @@ CONTENTS = {
     "twins-inline": "{ a.enable = true; b.enable = true; c.enable = true; }",
 }
 PATHS = ["a.enable", "b.enable", "c.enable", "enable", "@lib.v", "@w.v", "a", "b", "z", "m", "m.x", "m.z", "m.n.x", "n.p.q", '"foo-bar"', '"a.b"', '"new key"', "a.k", "m.x.k",
-         "@v", "@@u", "@@v", "@new", "@@@x", "@v.k", "", "a..b", ".a", '"a', "@", "@@", "a-b", '"if"']
+         "@v", "@@u", "@@v", "@new", "@@@x", "@v.k", "", "a..b", ".a", '"a', "@", "@@", "a-b", '"if"',
+         # a scoped name that the attribute set body binds as well (the body must keep its text: C09)
+         "@a", "@@a", "@m.x"]
 VALUES = ["2", '"s"', "[ 1 2 ]", "{ k = 1; }", "v", "{", "1 2", ""]
 
 
@@ -429,6 +431,17 @@ def coarse_signature(sym, op, path, text, wrapper, content):
         depth, names = 0, []
     if sym == "output-has-syntax-error" and depth > 0 and wrapper in ("call", "lambda-call"):
         return f"{sym}|scoped edit on a call-argument target emits `f let ... in {{...}}`|wrapper={wrapper}"
+    if op == "set" and depth == 1 and names:
+        try:
+            _, tree, layers = RD.read_document(text)
+            t = tree
+            for nm in names:
+                t = t.get(nm) if isinstance(t, dict) else None
+            if not layers and t is not None:
+                return (f"{sym}|set @path on a let-less document whose body already binds the path edits the body instead of creating "
+                        "a layer (pinned by test_set_scope_path_updates_existing_attrset_body)")
+        except Exception:
+            pass
     if sym == "output-defines-an-attribute-twice" and depth == 0 and len(names) == 1:
         try:
             _, tree, _ = RD.read_document(text)
